@@ -20,7 +20,7 @@ from elementpath.namespaces import XSLT_XQUERY_SERIALIZATION_NAMESPACE
 from elementpath.datatypes import AnyAtomicType, AnyURI, AbstractDateTime, \
     AbstractBinary, UntypedAtomic, QName
 from elementpath.xpath_nodes import XPathNode, ElementNode, AttributeNode, DocumentNode, \
-    NamespaceNode, TextNode, CommentNode
+    NamespaceNode, TextNode, CommentNode, ProcessingInstructionNode
 from elementpath.xpath_nodes import EtreeElementNode
 from elementpath.xpath_tokens import XPathToken, XPathMap, XPathArray
 from elementpath.protocols import EtreeElementProtocol, LxmlElementProtocol
@@ -298,6 +298,12 @@ def serialize_to_xml(elements: Iterable[Any],
             elem = item.value
         elif isinstance(item, (AttributeNode, NamespaceNode)):
             raise xpath_error('SENR0001', token=token)
+        elif isinstance(item, CommentNode):
+            chunks.append(f'<!--{item.string_value}-->')
+            continue
+        elif isinstance(item, ProcessingInstructionNode):
+            chunks.append(f'<?{item.name} {item.string_value}?>' if item.string_value else f'<?{item.name}?>')
+            continue
         elif isinstance(item, TextNode):
             if item.parent is not None and item.parent.name in cdata_section:
                 chunks.append(f'<![CDATA[{item.value}]]>')
